@@ -16,9 +16,10 @@
 From Coq Require Import QArith.
 From SC Require Import Base.Prelude Group.Exec Group.C17Judge Group.ExecLemmas Group.ExecProofs
   Group.ExecAwareProofs Group.ContractProofs
-  Group.ExecPc Group.C17PJudge Group.ExecPcProofs Group.ExecShape
+  Group.ExecPc Group.C17PJudge Group.ExecPcProofs Group.ExecPcClosed Group.ExecPcOneProofs Group.ExecShape
   Group.TraitGroup Group.TraitGroupJudge Group.TraitGroupProofs Group.TraitGroupPullProofs
-  Group.TraitGroupPullReduce.
+  Group.TraitGroupPullReduce Group.TraitGroupPullJudge Group.TraitGroupPullRet Group.TraitGroupPullFail
+  Group.TraitGroupPullRace.
 (* imported last: its pstate / pstep (the process model of executeEach) are the ones meant by the unqualified
    names below; the Pull model's are written TraitGroup.pstate / TraitGroup.pstep *)
 From SC Require Import Group.ExecProc Group.ExecProcProofs.
@@ -359,6 +360,95 @@ Theorem C17_race_returns_first_observed : forall ms pre evs,
 Proof. exact race_first_observed. Qed.
 Print Assumptions C17_race_returns_first_observed.
 
+(* ---- third wave: the received sequence is EXPLICIT under the guard of generator C17P (every member
+   released exactly once, the parent context cancelled exactly once — before the call or at some step),
+   for EVERY member count, outcome vector, awareness mix, release order and cancellation point.
+   seq_at ms evs q (Group/C17PJudge.v) =
+        own responses of the members released up to step q, in release order
+     ++ context errors of the cancellation-aware members not yet released at q, in index order
+     ++ own responses of the context-ignoring members released after q, in release order,
+   q_of = the earlier of the parent cancellation and the call's own decision step (ExecuteUpTo: first
+   step at which more than max(k,0) released members have failed; ExecuteFast: the release of the
+   first member that succeeds; ExecuteRace: the first release).  The call returns its loop's law on
+   exactly that sequence, and that is the x_ret of the closed-form contract contract_ev. *)
+Theorem C17_received_sequence_closed_form : forall a ms (pre : bool) evs c0,
+  loop_of a (List.length ms) = Some c0 ->
+  perm_b (rel_order evs) (List.length ms) = true ->
+  (npar evs + (if pre then 1 else 0) = 1)%nat ->
+  x_ret (exec_ev a ms pre evs) =
+  wrap_of a (List.length ms) (law_of c0 (List.length ms) (seq_at ms evs (q_of c0 ms pre evs))).
+Proof. exact par_ret_closed_form. Qed.
+Print Assumptions C17_received_sequence_closed_form.
+
+(* the state of the receiving loop once every member has returned is the fold of recv over seq_at,
+   closed by the channel's close if the loop had not returned *)
+Theorem C17_offered_sequence_closed_form : forall c0 ms (pre : bool) evs,
+  shape c0 (List.length ms) ->
+  perm_b (rel_order evs) (List.length ms) = true ->
+  (npar evs + (if pre then 1 else 0) = 1)%nat ->
+  let W := t_w (run_par_t c0 ms pre evs) in
+  w_cons W = fin (consume c0 (seq_at ms evs (q_of c0 ms pre evs))) /\ (forall j, lv W j = false).
+Proof.
+  intros c0 ms pre evs SH PB NP. cbv zeta. rewrite run_par_t_world.
+  destruct (par_offered_closed_form c0 ms pre evs SH PB NP) as [[I _] AD]. split; auto.
+Qed.
+Print Assumptions C17_offered_sequence_closed_form.
+
+(* ExecuteOne (and Execute with strategy One) under a parent cancellation: the event model, run step
+   by step, IS the closed-form recursion one_spec over the members with the time each is invoked —
+   every field of the result, every member count *)
+Theorem C17_one_under_parent_cancel_meets_contract : forall a ms (pre : bool) evs,
+  a = AOne \/ a = AExecute 4 ->
+  perm_b (rel_order evs) (List.length ms) = true ->
+  Nat.eqb (npar evs + (if pre then 1 else 0)) 1 = true ->
+  exec_ev a ms pre evs = contract_ev a ms pre evs.
+Proof. exact exec_ev_one_meets_contract. Qed.
+Print Assumptions C17_one_under_parent_cancel_meets_contract.
+
+(* THE closed-form contract for parent cancellation IS the event model: every API (ExecuteUpTo with
+   any budget, All/Most/Any, ExecuteOne, ExecuteFast, ExecuteRace, Execute with any strategy number),
+   every member count, outcome vector, awareness mix, release order, cancellation point (before the
+   call or at any step) — every field of the result: what is returned (the loop's law on seq_at),
+   who was invoked, the step at which the members' context is cancelled (the earlier of q and the
+   return step), the step at which the call returns (the step of the first response that ends the
+   loop, else the latest return of a member: a flushed member returns at q, any other at its release),
+   which members saw ctx.Done and when (the flushed ones, at q), nothing left running.  Under the
+   guard of generator C17P: every member released exactly once, the parent cancelled exactly once. *)
+Theorem C17_event_model_meets_contract_ev : forall a ms (pre : bool) evs,
+  perm_b (rel_order evs) (List.length ms) = true ->
+  Nat.eqb (npar evs + (if pre then 1 else 0)) 1 = true ->
+  exec_ev a ms pre evs = contract_ev a ms pre evs.
+Proof. exact exec_ev_meets_contract_ev. Qed.
+Print Assumptions C17_event_model_meets_contract_ev.
+
+(* hence an observation that agrees with the event model satisfies the closed-form contract *)
+Theorem C17_parent_cancel_judge_sound : forall a ms pre evs obs,
+  C17P_guard (KEv a ms pre evs obs) = true ->
+  pagrees (KEv a ms pre evs obs) = true -> C17P_ok (KEv a ms pre evs obs) = true.
+Proof. exact pjudge_sound. Qed.
+Print Assumptions C17_parent_cancel_judge_sound.
+
+(* the return step and the cancellation step spelled out on the world of the event model *)
+Theorem C17_return_and_cancel_step_closed_form : forall c0 ms (pre : bool) evs,
+  shape c0 (List.length ms) ->
+  perm_b (rel_order evs) (List.length ms) = true ->
+  (npar evs + (if pre then 1 else 0) = 1)%nat ->
+  let q := q_of c0 ms pre evs in
+  let W := t_w (run_par_t c0 ms pre evs) in
+  exists t, w_ret W = Some t /\
+    match flip (ret_step ms evs q) c0 (seq_at ms evs q) with
+    | Some t' => t = t'
+    | None => all_ret_step ms evs q = t
+    end /\
+    ((0 < List.length ms)%nat -> w_cancel W = Some (Nat.min q t)) /\
+    w_saw W = saw_at ms evs q.
+Proof.
+  intros c0 ms pre evs SH PB NP. cbv zeta. rewrite run_par_t_world.
+  destruct (par_time_closed_form c0 ms pre evs SH PB NP) as [t [RT [M KC]]].
+  exists t. repeat split; auto. apply par_saw_closed_form; auto.
+Qed.
+Print Assumptions C17_return_and_cancel_step_closed_form.
+
 (* once every member has been allowed to finish the call has returned — never RHang, never a panic,
    nothing left behind — whatever else happened (parent cancelled or not, at any point) *)
 Theorem C17_call_returns_under_events : forall a ms pre evs c0,
@@ -693,3 +783,52 @@ Example C17_nonvacuous_pull :
   p_ret st = Some (4%nat, 1) /\ w_saw (p_w st) = [-1; 4] /\ w_cancel (p_w st) = Some 4%nat /\
   w_live (p_w st) = [false; false].
 Proof. exact pull_onoff_example. Qed.
+
+(* ---- third wave, trait groups: the Pull judge's closed form is sound w.r.t. the Pull model ---- *)
+(* every case kind (unary, PullOnOff, PullBrightness): an observation that agrees with the model and
+   passes the guard satisfies the judge's closed-form predicate — messages sent, return step and error,
+   including after a failed Send and under Race.  The guard bounds the group at 3000 members (a failed
+   Send's canonical error 3000+k must not collide with a member's own error i+1). *)
+Theorem C17_trait_judge_sound : forall c,
+  tagrees c = true -> C17T_guard c = true -> C17T_ok c = true.
+Proof. exact trait_judge_sound. Qed.
+Print Assumptions C17_trait_judge_sound.
+
+Theorem C17_pull_judge_sends_sound : forall c,
+  tagrees c = true -> C17T_guard c = true -> C17T_ok_sends c = true.
+Proof. exact trait_judge_sound_partial. Qed.
+Print Assumptions C17_pull_judge_sends_sound.
+
+Theorem C17_pull_ok_split : forall c, C17T_ok c = C17T_ok_sends c && C17T_ok_ret c.
+Proof. exact C17T_ok_split. Qed.
+Print Assumptions C17_pull_ok_split.
+
+Theorem C17_pull_returns_by_contract : forall V reduce veqb ms eofs fail_at strategy (evs : list (pevent V)),
+  let st := pull reduce veqb ms fail_at strategy evs in
+  strategy <> 4 -> p_nondet st = false -> p_failed st = None -> has_parent evs = false ->
+  ret_by_contract ms eofs strategy evs =
+  (retZ V st, match p_ret st with Some (_, e) => perr eofs e | None => 0 end).
+Proof. exact pull_ret_by_contract. Qed.
+Print Assumptions C17_pull_returns_by_contract.
+
+Theorem C17_pull_returns_after_failed_send : forall V reduce veqb ms fail_at strategy,
+  members_ok ms = true -> strategy <> 6 -> forall evs : list (pevent V),
+  let st := pull reduce veqb ms fail_at strategy evs in
+  p_nondet st = false -> p_failed st <> None ->
+  exists f : nat,
+    fstep V fail_at (map (tr V) (p_sent st)) = Z.of_nat f /\
+    ret_after_failed_send ms fail_at strategy evs (Z.of_nat f) =
+      (retZ V st, match p_ret st with Some (_, e) => e | None => 0 end).
+Proof. exact pull_ret_after_failed_send. Qed.
+Print Assumptions C17_pull_returns_after_failed_send.
+
+Theorem C17_pull_returns_after_failed_send_race : forall V reduce veqb ms fail_at strategy,
+  strategy = 6 -> forall evs : list (pevent V),
+  let st := pull reduce veqb ms fail_at strategy evs in
+  p_nondet st = false -> p_failed st <> None ->
+  exists f : nat,
+    fstep V fail_at (map (tr V) (p_sent st)) = Z.of_nat f /\
+    ret_after_failed_send ms fail_at strategy evs (Z.of_nat f) =
+      (retZ V st, match p_ret st with Some (_, e) => e | None => 0 end).
+Proof. exact pull_ret_after_failed_send_race. Qed.
+Print Assumptions C17_pull_returns_after_failed_send_race.
